@@ -28,8 +28,9 @@ NonZeroB(cls) ==
     [] cls = "duration" -> "-5"
     [] OTHER -> "6262"
 
+\* (time: the instant of NonZeroA in another zone as well - a refresh that compares instants instead of values keeps the old zone)
 ScalarVals(cls, deep) ==
-  {ZeroScalar(cls), NonZeroA(cls)} \cup (IF deep THEN {NonZeroB(cls)} \cup (IF cls = "float" THEN {"-0"} ELSE {}) ELSE {})
+  {ZeroScalar(cls), NonZeroA(cls)} \cup (IF cls = "time" THEN {"2024-01-02T05:04:05.000000006+02:00"} ELSE {}) \cup (IF deep THEN {NonZeroB(cls)} \cup (IF cls = "float" THEN {"-0"} ELSE {}) ELSE {})
 
 \* element values of a primitive list / map
 PrimElemVals(F, deep) == IF F.nullable THEN {Nil} \cup {Ptr(Sc(s)) : s \in ScalarVals(F.cls, deep)} ELSE {Sc(s) : s \in ScalarVals(F.cls, deep)}
@@ -242,7 +243,11 @@ CorruptObj(M, tv) ==
          \cup (IF F.kind \in {"primlist", "objlist"} /\ a.k = "list" /\ Known(a) THEN
                  {put([a EXCEPT !.elems = <<>>, !.elemsnil = TRUE])}
                  \cup UNION {{put([a EXCEPT !.elems[j] = VBad]), put([a EXCEPT !.elems[j] = VNilIf])} : j \in DOMAIN a.elems}
+                 \* a wrong-typed element IN FRONT of the well-formed ones (which must still be copied, each with its diagnostics)
+                 \cup {put([a EXCEPT !.elems = <<VBad>> \o @ \o @])}
                  \cup (IF F.kind = "objlist" THEN UNION {{put([a EXCEPT !.elems[j] = c]) : c \in CorruptObj(SubOf(F), a.elems[j])} : j \in DOMAIN a.elems} ELSE {})
+                 \* ... and in front of a malformed one: what is missing there is still reported (the loop goes on after a bad element)
+                 \cup (IF F.kind = "objlist" /\ a.elems # <<>> THEN {put([a EXCEPT !.elems = <<VBad, c>>]) : c \in CorruptObj(SubOf(F), a.elems[1])} ELSE {})
                ELSE {})
          \cup (IF F.kind \in {"primmap", "objmap"} /\ a.k = "map" /\ Known(a) THEN
                  {put([a EXCEPT !.mels = EmptyFn, !.elemsnil = TRUE])}
